@@ -1,4 +1,5 @@
 import BarterModel.Lemmas.Metrics
+import BarterModel.Lemmas.KernelsAgree.MetricsSM
 /-!
 # C16M (sub-check of C16) — risk-adjusted return metrics and time-interval scaling
 
@@ -694,5 +695,21 @@ example : (sheetOf sqrtApprox 0 oneLoss 0 .annual365).sortinoRatio.value = decim
     (sheetOf sqrtApprox 0 oneLoss 0 .annual365).pnlReturn.value < 0 := by decide +kernel
 
 end NonVacuity
+
+/-- **Tie to the source by translation.** `SharpeRatio` / `SortinoRatio` / `CalmarRatio` /
+`RateOfReturn` `::{calculate, scale}`, the trait `TimeInterval` (as the record of its method
+`interval`) and its implementors `Daily`, `Annual252`, `Annual365` are regenerated from the current
+`barter/src/statistic/metric/{sharpe,sortino,calmar,rate_of_return}.rs` and `statistic/time.rs` by
+`tools/rust2lean_sm.py` on every run (`Generated/Machines2.lean`, group `metrics`). Instantiated at
+the model's closed `Interval` type with `dict = ⟨Interval.interval⟩`, every generated `calculate`
+equals the model's for all arguments, and every generated `scale` equals the model's for all metrics
+and targets, for every `decimal_sqrt` (rust_decimal's root, an untranslated parameter) returning `Some`
+on non-negative arguments — on the overflow-free domain `MetricsSM.Fits` (the translator's
+`checked_mul` never overflows; the model's saturation to `Decimal::MAX` beyond it, i.e. the branch of
+`very_bad_reported_as_very_good`, is tied by correspondence only). The statement is that of
+`KernelsAgree.MetricsSM.metrics_sm_agree` (Lemmas/KernelsAgree/MetricsSM.lean). -/
+theorem kernels_agree_with_source :
+    type_of% BarterModel.KernelsAgree.MetricsSM.metrics_sm_agree :=
+  BarterModel.KernelsAgree.MetricsSM.metrics_sm_agree
 
 end BarterModel.Props.C16M
